@@ -2,7 +2,7 @@
    (connected components of the border graph), each exactly once. *)
 From Coq Require Import ZArith List Bool Lia Relations Permutation.
 Import ListNotations.
-Require Import MV.Lib.Base MV.C15.Model MV.C15.ProofsBase MV.C15.ProofsCycle.
+Require Import MV.Lib.Base MV.C15.Model MV.C15.ProofsBase MV.C15.GenFacts MV.C15.ProofsCycle.
 Local Open Scope Z_scope.
 
 Section All.
@@ -57,7 +57,7 @@ Proof.
     split; [intros x []|]. split; [intros x []|exact Hc].
   - assert (Hv : In v B) by (apply Hi; now left).
     assert (Ht : incl t B) by (intros z Hz; apply Hi; now right).
-    simpl all_loop. unfold all_enter. destruct (memz v vis) eqn:M; simpl negb; cbv iota.
+    cbn [all_loop]. rewrite gen_all_enter. destruct (memz v vis) eqn:M; simpl negb; cbv iota.
     + apply memz_In in M. destruct (IH vis Ht Hc) as [cycles [E [F [N [D [Cov Cl]]]]]].
       exists cycles. split; [exact E|]. split; [|split; [exact N|split; [exact D|split; [|exact Cl]]]].
       * eapply Forall_impl; [|exact F]. intros c [st [eb [X [Y [Z1 Z2]]]]]. exists st, eb.
@@ -65,7 +65,7 @@ Proof.
       * intros x [<-|Hx]; [now left | now apply Cov].
     + apply memz_false in M.
       destruct (cycle_ok s W v Hv) as [vb [eb [E C]]]. rewrite E.
-      unfold all_pick. simpl Z.eqb. cbv iota.
+      rewrite gen_all_pick. simpl Z.eqb. cbv iota.
       destruct (IH (vb ++ vis) Ht (closed_app v vb eb vis C Hc)) as [cycles [E2 [F [N [D [Cov Cl]]]]]].
       rewrite E2. exists (vb :: cycles).
       pose proof C as [H1 [H2 [H3 [H4 [H5 H6]]]]].
